@@ -276,6 +276,24 @@ pub fn run(ctx: &Ctx) {
         check_one(ctx, &l, &t, "byte list at the STRING_EXT limit");
     }
 
+    // every small structure, bare and placed, in every representation style
+    {
+        let small = crate::genr::small::all_small_values();
+        let stride = ctx.pick(4usize, 1usize);
+        for (i, v) in small.iter().enumerate() {
+            for (j, w) in crate::genr::small::placed(v).iter().enumerate() {
+                if j > 0 && (i + j) % stride != 0 {
+                    continue;
+                }
+                for style in [Style::User, Style::Mixed] {
+                    if let Some(t) = term_of(w, &mut rng, style) {
+                        check_one(ctx, w, &t, "small structure");
+                    }
+                }
+            }
+        }
+        ctx.class("small-structures/exhaustive");
+    }
     // seeded random trees
     let n_random = ctx.pick(60_000usize, 3_000_000usize);
     let mut done = 0usize;
